@@ -1320,6 +1320,37 @@ def check_C11(ctx, deep=False):
                 followups.append((posr["op"], "matecheck %d %s" % (val, first), line, r["op"]))
             elif last_of_depth.get(depth) == idx and depth < roots:
                 followups.append((posr["op"], "matecheck %d -" % val, line, r["op"]))
+    # mate announcements under EVERY clock expiry: the real search cut at each consultation k of the
+    # first iterations on small mate-neighbourhood positions; every `mate N`, N > 0, on any line of
+    # any run is a claim about that line's first move
+    sw = C.genops("retromate", ctx.seed + 3, 10 if q else 120, "gen_all", "sweep_500_1")
+    sw += C.genops("mate", ctx.seed + 4, 10 if q else 120, "gen_all", "sweep_500_1")
+    # heavy pieces against a bare king, no mate in one: cut points up to the end of iteration 3
+    sw += C.genops("matesoon", ctx.seed + 5, 6 if q else 80, "gen_all", "sweep_2100_3" if q else "sweep_2400_1")
+    sres = C.run_ops(sw)
+    t2_search(ctx, [r for r in sres if r["op"].startswith("sweep")])
+    for posr, genr, srs in group_by_pos(sres):
+        men = sum(1 for ch in posr["I"].split(" ")[1] if ch.isalpha()) if posr["I"].startswith("ok ") else 32
+        for sr in srs:
+            if sr["I"] == "panic":
+                ctx.fail("search-panic", where=[posr["op"], sr["op"]])
+                continue
+            seen = set()
+            for sec in C.impl_body(sr["op"], sr["I"]).split("~~"):
+                kk, _, body = sec.partition("~")
+                d = parse_search(body)
+                ctx.case((posr["op"], sr["op"], kk), any(" mate " in l for l in d["info_list"]))
+                for line in d["info_list"]:
+                    m = INFO_RE.match(line)
+                    if not m or m.group(4) != "mate":
+                        continue
+                    val = int(m.group(5))
+                    first = m.group(1).split()[0]
+                    if val <= 0 or val > 3 or (val == 3 and (q or men > 7)) or (val, first) in seen:
+                        continue
+                    seen.add((val, first))
+                    ctx.count("mate_claims_under_expiry")
+                    followups.append((posr["op"], "matecheck %d %s" % (val, first), line, sr["op"] + " " + kk))
     # judge the claims with the Lean solver
     uniq = sorted(set(followups))
     fops = []
